@@ -326,7 +326,8 @@ func jsonRoot(t *rapid.T, r gRoot) string {
 	if r.Maybe != nil {
 		add("maybe", jsonPlainBody(t, *r.Maybe))
 	}
-	if len(r.Many) > 0 {
+	interleave := len(r.Many) > 0 && len(r.ManyPtr) > 0 && rapid.Bool().Draw(t, "interleave_block_types")
+	if len(r.Many) > 0 && !interleave {
 		add("many", jsonLeaves(t, r.Many))
 	}
 	if len(r.ManyPtr) > 0 {
@@ -340,6 +341,26 @@ func jsonRoot(t *rapid.T, r gRoot) string {
 				body = append(body, `"deep":`+jsonLeaves(t, tw.Deep))
 			}
 			tws = append(tws, "{"+jkey(t, tw.A)+":{"+jkey(t, tw.B)+":{"+strings.Join(body, ",")+"}}}")
+		}
+		if interleave {
+			// the body as an array of objects, one block per object, the two block types
+			// interleaved (each type keeps its own order): the same configuration
+			var leaves []string
+			for _, l := range r.Many {
+				leaves = append(leaves, `{"many":{`+jkey(t, l.Name)+":"+jsonLeafBody(t, l)+"}}")
+			}
+			objs := []string{"{" + strings.Join(parts, ",") + "}"}
+			i, j := 0, 0
+			for i < len(leaves) || j < len(tws) {
+				if j >= len(tws) || (i < len(leaves) && rapid.Bool().Draw(t, "next_is_leaf")) {
+					objs = append(objs, leaves[i])
+					i++
+				} else {
+					objs = append(objs, `{"manyptr":`+tws[j]+"}")
+					j++
+				}
+			}
+			return "[" + strings.Join(objs, ",") + "]"
 		}
 		add("manyptr", "["+strings.Join(tws, ",")+"]")
 	}
